@@ -248,7 +248,11 @@ def run(chk, tier):
         else:
             chk.ok("R01.2", key, {"sites": where, "discharge": row["reason"]})
     chk.floor("R01.2", "dispatch functions checked", ndisp, 49)
-    chk.floor("R01.2", "table rows matched", len(seen_keys & set(table)), 55)
+    chk.floor("R01.2", "table rows matched", len(seen_keys & set(table)), 46)
+    # D-length: constant-index bounds checks discharged by the slice-length dataflow (rules/lenfacts.py)
+    for (bp_, cls_, why_) in panic_edges.DISCHARGED:
+        chk.ok("R01.2", "%s|D-length|%s" % (lib.short(bp_), why_[:40]), why_)
+    chk.floor("R01.2", "bounds checks with a constant index discharged by length facts", len(panic_edges.DISCHARGED), 15)
 
     # ---- R01.4
     nodes = [b.id for b in F.bodies.values() if b.pkg in PKGS]
